@@ -54,6 +54,8 @@ var Errnos = []error{
 	&os.PathError{Op: "write", Path: "out", Err: syscall.ENOSPC},
 	&os.PathError{Op: "write", Path: "out", Err: syscall.EPIPE},
 	&os.PathError{Op: "write", Path: "out", Err: syscall.EIO},
+	&os.PathError{Op: "close", Path: "out", Err: syscall.EINTR},
+	&os.PathError{Op: "write", Path: "out", Err: syscall.EDQUOT},
 }
 
 func (s *Sink) fault() error {
